@@ -101,6 +101,9 @@ def _pp(x):
 DIGEST_LEN = {"sha512": 64, "sha384": 48, "sha256": 32, "sha1": 20, "xxh3": 16}
 
 
+RAW_CONTENT = {}    # (algo, raw digest) -> concrete content known to hash to it
+
+
 class Digest:
     """Digest of an SBytes under an algorithm.  Concrete when the content is."""
 
@@ -110,6 +113,7 @@ class Digest:
         self.raw = raw
         if raw is None and content is not None and content.is_concrete() and algo in ("sha512", "sha384", "sha256", "sha1"):
             self.raw = hashlib.new(algo, content.concrete()).digest()
+            RAW_CONTENT[(algo, self.raw)] = content
 
     def nbytes(self):
         if self.raw is not None:
@@ -459,10 +463,33 @@ def same_blob_var(b1, b2):
     return _same_vars[k]
 
 
+def canon(c, ctx):
+    """Normalise using facts the path condition entails: drop provably empty segments and merge
+    blob slices that are provably adjacent."""
+    if ctx is None or not any(isinstance(s, (BlobSeg, Fill)) for s in c.segs):
+        return c
+    out = []
+    for s in c.segs:
+        if isinstance(s, BlobSeg):
+            if not _same_term(s.a, s.b) and (is_sym(s.a) or is_sym(s.b)) and ctx.known(_bv(s.a) == _bv(s.b)):
+                continue
+            if out and isinstance(out[-1], BlobSeg) and out[-1].blob is s.blob and \
+                    (is_sym(out[-1].b) or is_sym(s.a)) and ctx.known(_bv(out[-1].b) == _bv(s.a)):
+                out[-1] = BlobSeg(s.blob, out[-1].a, s.b)
+                continue
+        elif isinstance(s, Fill) and is_sym(s.n) and ctx.known(s.n == 0):
+            continue
+        out.append(s)
+    return SBytes(out)
+
+
 def content_eq(c1, c2, ctx):
     """Equality of two byte strings: bool or z3 Bool (symbolic)."""
     c1 = concretise_atoms(c1)
     c2 = concretise_atoms(c2)
+    if c1.key() == c2.key():
+        return True
+    c1, c2 = canon(c1, ctx), canon(c2, ctx)
     if c1.key() == c2.key():
         return True
     if c1.is_concrete() and c2.is_concrete():
@@ -481,6 +508,13 @@ def content_eq(c1, c2, ctx):
         ok = True
         for a, b in zip(c1.segs, c2.segs):
             if seg_key(a) == seg_key(b):
+                continue
+            if isinstance(a, BlobSeg) and isinstance(b, BlobSeg) and a.blob is b.blob:
+                # same blob: equal when the bounds coincide (for arbitrary data this is also necessary)
+                conds.append(z3.And(_bv(a.a) == _bv(b.a), _bv(a.b) == _bv(b.b)))
+                continue
+            if isinstance(a, Fill) and isinstance(b, Fill) and a.byte == b.byte:
+                conds.append(_bv(a.n) == _bv(b.n))
                 continue
             if isinstance(a, SymByte) and isinstance(b, bytes) and len(b) == 1:
                 conds.append(a.bv == b[0])
@@ -507,6 +541,11 @@ def content_eq(c1, c2, ctx):
             if not conds:
                 return True
             return z3.And(*conds) if len(conds) > 1 else conds[0]
+    # concrete digest text versus the digest atom of symbolic content (ideal hash)
+    for x, y in ((c1, c2), (c2, c1)):
+        if len(y.segs) == 1 and isinstance(y.segs[0], Atom) and y.segs[0].kind in ("hex", "b64") and y.segs[0].a is None \
+                and y.segs[0].payload.raw is None and all(isinstance(t, (bytes, SymByte)) for t in x.segs):
+            return _text_vs_digest_atom(x, y.segs[0], ctx)
     # expand bytes vs symbytes of differing segmentation
     e = _bytewise_eq(c1, c2)
     if e is not None:
@@ -516,6 +555,32 @@ def content_eq(c1, c2, ctx):
     if k not in _same_vars:
         _same_vars[k] = z3.Bool("eq_%d" % len(_same_vars))
     return _same_vars[k]
+
+
+def _text_vs_digest_atom(text, atom, ctx):
+    """text (concrete / symbolic bytes) == hex|b64(H(X)) for symbolic X.  Under the ideal-hash
+    assumption this can only hold when the text is the encoding of H(Y) for a content Y that was
+    actually hashed (known) and X == Y."""
+    import base64
+    d = atom.payload
+    conds = []
+    for (algo, raw), content in list(RAW_CONTENT.items()):
+        if algo != d.algo:
+            continue
+        enc = raw.hex().encode() if atom.kind == "hex" else base64.b64encode(raw)
+        te = _bytewise_eq(text, SBytes.of(enc))
+        if te is False or te is None:
+            continue
+        ce = content_eq(d.content, content, ctx)
+        if ce is False:
+            continue
+        both = ce if te is True else (te if ce is True else z3.And(te, ce))
+        if both is True:
+            return True
+        conds.append(both)
+    if not conds:
+        return False
+    return z3.Or(*conds) if len(conds) > 1 else conds[0]
 
 
 def _zext(t, w, to):
